@@ -17,9 +17,9 @@ import (
 	"github.com/sdcio/data-server/pkg/config"
 	schemaClient "github.com/sdcio/data-server/pkg/datastore/clients/schema"
 	dschema "github.com/sdcio/data-server/pkg/schema"
+	"github.com/sdcio/data-server/pkg/tree"
 	sdcpb "github.com/sdcio/sdc-protos/sdcpb"
 	"google.golang.org/grpc"
-	"github.com/sdcio/data-server/pkg/tree"
 	"google.golang.org/protobuf/proto"
 
 	"verif/sim"
